@@ -306,6 +306,7 @@ impl crate::world::World {
                         k.self_wake = rng.range(1, 3) as u32;
                     }
                     k.hold = rng.range(1, 3) as u8;
+                    k.wake_on_ready = rng.chance(1, 8);
                 }
                 self.event(ev::UP_POLL, 1, id as u64);
                 UpOut::Item(id)
